@@ -11,8 +11,9 @@ sys.path.insert(0, '/repo')
 from pydbml.classes import Column, EnumItem, Expression, Index, Note  # noqa: E402
 
 PID = 'C10'
-THEOREMS = []
-MODULES = []
+THEOREMS = ['PyDBML.C10.fk_shows_renamed_target', 'PyDBML.C10.fk_shows_renamed_source', 'PyDBML.C10.fk_shows_renamed_column',
+            'PyDBML.C10.table_shows_new_name']
+MODULES = ['PyDBMLProofs.Props.C10']
 
 EDITS = ['t.name', 't.schema', 't.alias', 't.note', 't.color', 'c.name', 'c.type', 'c.type_enum', 'c.flags', 'c.default',
          'c.note', 'e.name', 'e.schema', 'e.add_item', 'e.item_name', 'r.type', 'r.inline', 'r.name', 'r.actions',
